@@ -317,9 +317,9 @@ func (c coordGen) geomOfKind(rt *rapid.T, kind, depth int) *geom {
 	return g
 }
 
-// kinds of collection members (collections last, twice) and of top-level geometries (weighted
+// kinds of collection members (collections last, three times) and of top-level geometries (weighted
 // towards the types with more structure)
-var memberKinds = []int{kPoint, kLine, kPoly, kMPoint, kMLine, kMPoly, kColl, kColl}
+var memberKinds = []int{kPoint, kLine, kPoly, kMPoint, kMLine, kMPoly, kColl, kColl, kColl}
 var topKinds = []int{kPoint, kLine, kPoly, kPoly, kMPoint, kMLine, kMPoly, kMPoly, kColl, kColl, kColl}
 
 func (c coordGen) geom(rt *rapid.T) *geom {
